@@ -103,7 +103,8 @@ pub fn format_violations(state: &[String], snaps: &BTreeMap<u32, Vec<Obs>>) -> V
         }
         // a completed version's tail states the true hunk count
         if let Some(t) = st.get(&format!("{bn}/BANDTAIL")) {
-            if t.as_str() != "empty" && *t != format!("tail:{}", hunks.len()) {
+            // (a tail of the form conserve < 0.6.4 wrote carries no count: "tail:-")
+            if t.as_str() != "empty" && t.as_str() != "tail:-" && *t != format!("tail:{}", hunks.len()) {
                 bad.push(("format:tail-hunk-count".into(), json!({"band": bn, "tail": t, "hunks": hunks.len()})));
             }
         }
@@ -264,6 +265,8 @@ pub fn run(tier: &str, seed: u64, report: &mut Report) {
         let mut rng = Rng::new(case_seed);
         let go = GenOpts { max_nodes: 14, block: 16, cap: 8, ..Default::default() };
         let mut steps = gen_history(&mut rng, if thorough { 20 } else { 12 }, &go, true, true);
+        // C13 is about what THIS tool writes: no tails rewritten to an older tool's form
+        steps.retain(|s| !matches!(s, Step::LegacyTail));
         if h == 0 {
             // directed: small files that fill a combined block exactly (the combiner flushes by itself and
             // parks the finished entries), then a hunk boundary reached by entries that bypass the combiner
